@@ -63,7 +63,7 @@ def r1_r4(run: Run, rt):
             def hook(ev, args, rec=rec):
                 rec.append(args)
                 return AV('bool')
-            ev = Evaluator(cp.members, hooks={'_by_operator': hook})
+            ev = Evaluator(cp.members, hooks={'_by_operator': hook, '_normalize_float_number': _normaliser_hook})
             construct = f'_compare[{cp.label}]({ka},{kb})'
             try:
                 ev.call_method('_compare', [const_av('=='), _with_origin(a, 'L'), _with_origin(b, 'R')])
@@ -80,6 +80,26 @@ def r1_r4(run: Run, rt):
                 run.bad('C10.R1', construct, 'no-comparison', f'comparing {ka} with {kb} never reaches _by_operator', loc=loc)
                 continue
             op, l, r = rec[-1]
+            # what the operator table itself does to the operands before it compares them
+            bo = cp.members.get('_by_operator')
+            if bo is not None:
+                try:
+                    by_operator_table(bo)
+                except AnalysisError:
+                    pass
+                pre = PRELUDE.get(id(bo), [])
+                if pre:
+                    ps_ = [a_.arg for a_ in bo.args.args if a_.arg != 'self']
+                    env_ = {'self': AV('other', origin='self'), ps_[0]: op, ps_[1]: l, ps_[2]: r}
+                    try:
+                        ev.exec_block(pre, env_)
+                    except Unknown as u:
+                        raise AnalysisError('C10.R1', f'{construct}: the abstraction cannot follow the prelude of _by_operator ({u})')
+                    except AbsRaise as r_:
+                        run.bad('C10.R1', construct, f'escapes:{r_.exc}', f'comparing {ka} with {kb} lets {r_.exc} escape from _by_operator',
+                                loc=loc)
+                        continue
+                    op, l, r = env_[ps_[0]], env_[ps_[1]], env_[ps_[2]]
             if cp.label == 'template':
                 reach[(ka, kb)] = (l, r)
             problems = []
@@ -91,7 +111,7 @@ def r1_r4(run: Run, rt):
             if ka in NUMBERS and kb in NUMBERS:
                 if l.prec != 'exact' or r.prec != 'exact':
                     which = 'left' if l.prec != 'exact' else 'right'
-                    problems.append(('lossy-coercion', f'the {which} operand is truncated (int() of a fractional number) before '
+                    problems.append(('lossy-coercion', f'the {which} operand is {l.prec if l.prec != "exact" else r.prec} before '
                                                        f'the comparison: {ka} vs {kb} compares {l!r} with {r!r}'))
                 if l.kind == 'str' or r.kind == 'str':
                     problems.append(('numbers-compared-as-text', f'{ka} vs {kb} is compared as text'))
@@ -113,6 +133,18 @@ def r1_r4(run: Run, rt):
 
 
 IMAGES: dict = {}
+PRELUDE: dict = {}
+
+
+def _normaliser_hook(ev, args):
+    """float(f'{x:.15g}'): a float is rounded to 15 significant digits (not exact any more), other numbers become exact floats"""
+    from dataclasses import replace as _replace
+    v = args[0]
+    if v.kind == 'float':
+        return _replace(v, prec='rounded to 15 digits')
+    if v.kind in ('int', 'bool', 'blank'):
+        return AV('float', sign='zero' if v.kind == 'blank' else v.sign, frac=False, prec=v.prec, origin=v.origin)
+    raise Unknown('normaliser applied to a non-number')
 
 
 def by_operator_table(fn: ast.FunctionDef):
@@ -152,6 +184,15 @@ def by_operator_table(fn: ast.FunctionDef):
                 return (neg[type(c.ops[0])], c.left.id, c.comparators[0].id)
         return None
     body = [s for s in fn.body if not (isinstance(s, ast.Expr) and isinstance(s.value, ast.Constant))]
+    # statements in front of the dispatch on the operator (a prelude that may re-bind the operands) are evaluated by C10.R1
+    def dispatches(st):
+        if isinstance(st, ast.Match) and isinstance(st.subject, ast.Name) and st.subject.id == opn:
+            return True
+        return isinstance(st, ast.If) and isinstance(st.test, ast.Compare) and isinstance(st.test.left, ast.Name) and st.test.left.id == opn
+    k = next((i for i, st in enumerate(body) if dispatches(st)), None)
+    PRELUDE[id(fn)] = body[:k] if k else []
+    if k:
+        body = body[k:]
     if len(body) == 1 and isinstance(body[0], ast.Match) and isinstance(body[0].subject, ast.Name) and body[0].subject.id == opn:
         for case in body[0].cases:
             pats = case.pattern.patterns if isinstance(case.pattern, ast.MatchOr) else [case.pattern]
